@@ -86,6 +86,10 @@ class Link(object):
         return None
 
 
+class PreImageUnreadable(Exception):
+    pass
+
+
 def start(case, old):
     """Fresh simulator holding `old`, activated, previous message read."""
     sim = case.new_sim()
@@ -95,7 +99,9 @@ def start(case, old):
     clf, tag = case.activate(sim)
     nd = tag.ndef if tag is not None else None
     if nd is None or nd.octets != old:
-        raise HarnessError("pre-image not readable: %s" % case.name)
+        # a layout that is valid for the reference model but that this tree
+        # does not read back: C01's business, no retry history to judge
+        raise PreImageUnreadable("pre-image not readable: %s" % case.name)
     return sim, tag, nd
 
 
@@ -262,7 +268,11 @@ def c02_retry(case, old, new, tier, observe, only=None):
             return 'unsafe-write:' + cls.split('@')[0].split(':')[0], False
         return cls, True
 
-    link0, exc0, _ = probe(case, old, new)
+    try:
+        link0, exc0, _ = probe(case, old, new)
+    except PreImageUnreadable:
+        return dict(n=0, complete='pre-image-unreadable', histories=0,
+                    exempt=0, thinned=False, images=0, cross=0), []
     info = dict(n=len(link0.names), complete=exc_class(exc0), histories=0,
                 exempt=0, thinned=False, images=0, cross=0)
     if exc0 is not None:
@@ -331,7 +341,11 @@ def c03_retry(case, prev, pattern, n, tier, only=None):
     from mc.evidence import sig_exc
     old = tc.prev_message(case, prev)
     msg = tc.content(pattern, n)
-    link0, exc0, sim0 = probe(case, old, msg)
+    try:
+        link0, exc0, sim0 = probe(case, old, msg)
+    except PreImageUnreadable:
+        return dict(n=0, complete='pre-image-unreadable', exempt=0,
+                    thinned=False), []
     info = dict(n=len(link0.names), complete=exc_class(exc0), exempt=0,
                 thinned=False)
     if exc0 is not None:
